@@ -26,6 +26,7 @@ PROPS = {
                 n_l1=(300, 6000), n_l2=(240, 6000)),
 }
 
+PROPS["C01"]["groups_l1"] = MODELLED + ["B:SE_2_3,R1,SE2", "B:R1,SGal3,SO2", "B:SE2,SO3,R2"]
 PROPS["C05"]["groups_l1"] = MODELLED + ["B:SE2,SO3,R2", "B:SE_2_3,R1,SE2", "B:R1,SGal3,SO2"]
 PROPS["C04"] = dict(l1_ops=["rplus", "lplus", "rminus", "lminus", "between"] + l1.ALIASES, l2="C04",
                     n_l1=(900, 12000), n_l2=(400, 12000), l1_masks=True)
@@ -64,6 +65,9 @@ def case_from_request(pid, line, r):
     G = gen.GROUPS[group]
     R, D = G["repsize"], G["dof"]
     tags = ["directed:" + op]
+    if pid == "C01" and group.startswith("B:") and op in ("compose", "inverse", "act", "transform", "adj"):
+        # the matrix of a bundle is the block-diagonal matrix of its elements (judged separately as groups)
+        return l2.c11_case_at(pid, group, op, a, 0, tags)
     if pid == "C01" and op in ("compose", "inverse", "act", "transform", "rotation", "adj"):
         X = a[:R]
         Y = a[R:2 * R] if op == "compose" else gen.element(r, group, norm="exact")[0]
